@@ -85,6 +85,32 @@ fn props() -> Vec<PropDef> {
             "timer label events are emitted faithfully by the guarded hook lines",
             "print-span time is not counted against time_limit (notimeit! intent)",
         ],
+    },
+    PropDef {
+        id: "C03",
+        num: 3,
+        level: "exploration",
+        run: props::c03::run,
+        quick_runs: 60_000,
+        thorough_runs: 3_000_000,
+        rule: "one case = (generated problem, settings, history of 1-3 solves each cut by the simulated clock at a chosen clock read and/or by max_iter at a chosen iteration); non-trivial = at least one solve ended in a status other than Solved/PrimalInfeasible/DualInfeasible (MaxTime, MaxIterations, Almost*, InsufficientProgress, NumericalError); distinct = distinct hash of the run's event-shape sequence",
+        assumptions: &[
+            "agreement 'to rounding' is taken as 2^-36 of the sum of absolute values of the terms of each recomputed quantity",
+            "Almost*Infeasible tolerances are scale dependent (need tau/kappa) and are only checked for certificate sign and NaN objectives",
+        ],
+    },
+    PropDef {
+        id: "C20",
+        num: 20,
+        level: "exploration",
+        run: props::c20::run,
+        quick_runs: 30_000,
+        thorough_runs: 1_500_000,
+        rule: "one case = (generated problem incl. infinite bounds, settings, history of 1-2 solves cut by clock/max_iter) executed once per print target (buffer = reference R4, stream with seeded short writes/EINTR, file, sink, stream with a hard fault at a chosen call) under a clock that is a pure function of the read index; non-trivial = verbose on and at least one short-write or EINTR rate non-zero; distinct = distinct hash of the run's event-shape sequence (thread, event kind, sink outcome kind)",
+        assumptions: &[
+            "stdout is observed through the same PrintTarget::write path as the other targets (child-process capture is exercised by the stdout probe only)",
+            "whether solve() may panic on a hard sink error is not stated by any property and is only counted",
+        ],
     }]
 }
 
@@ -220,7 +246,10 @@ fn worker_main(args: &[String]) {
     let stride: u64 = args[5].parse().unwrap();
     let sample_every: u64 = args.get(6).and_then(|s| s.parse().ok()).unwrap_or(1000);
     std::panic::set_hook(Box::new(|_| {}));
+    let workdir = format!("{}/work/{}", VERIF_ROOT, std::process::id());
+    std::fs::create_dir_all(&workdir).ok();
     let stdout = std::io::stdout();
+    let mut shrunk_classes: BTreeSet<String> = BTreeSet::new();
     let mut idx = first;
     for k in 0..count {
         {
@@ -259,7 +288,21 @@ fn worker_main(args: &[String]) {
                 if !out.violations.is_empty() {
                     // minimise for the first violation class
                     let class = out.violations[0].class.clone();
-                    let (min, used) = shrink(&prop, tier, sim.cs.record.clone(), &class, 600);
+                    // minimise the first occurrence of each class in this worker;
+                    // later ones are reported as found
+                    let budget = if shrunk_classes.insert(class.clone()) { 600 } else { 0 };
+                    if budget == 0 {
+                        res["violations"] =
+                            Value::Array(out.violations.iter().map(violation_json).collect());
+                        res["choices"] = choices_to_json(&sim.cs.record);
+                        res["unshrunk"] = json!(true);
+                        let mut o = stdout.lock();
+                        writeln!(o, "RESULT {}", res).ok();
+                        o.flush().ok();
+                        idx += stride;
+                        continue;
+                    }
+                    let (min, used) = shrink(&prop, tier, sim.cs.record.clone(), &class, budget);
                     let (r2, sim2) = execute(&prop, tier, ChoiceStream::replay(min.clone()));
                     let (vs, trace): (Vec<Violation>, Vec<String>) = match r2 {
                         Ok(o2) if o2.violations.iter().any(|v| v.class == class) => (
@@ -298,6 +341,7 @@ fn worker_main(args: &[String]) {
         }
         idx += stride;
     }
+    std::fs::remove_dir_all(&workdir).ok();
 }
 
 // ------------------------------------------------------------------
@@ -625,7 +669,10 @@ fn run_main(args: &[String]) -> i32 {
         println!(
             "KNOWN-FINDING: property={} {} (seen in {} runs; e.g. {})",
             prop.id,
-            text.trim_start_matches("finding:").trim(),
+            text.trim_start_matches("finding:")
+                .trim()
+                .trim_start_matches(&format!("property={}", prop.id))
+                .trim(),
             n,
             detail
         );
